@@ -1484,6 +1484,20 @@ class DFA(fa.FA):
             symbol_a: symbol_b for symbol_a, symbol_b in pairwise(sorted_symbols)
         }
         symbol_succ[sorted_symbols[-1]] = None
+
+        def next_symbol(symbol: str) -> Optional[str]:
+            """The sibling to try after the given symbol, in traversal order."""
+            if symbol in symbol_succ:
+                return symbol_succ[symbol]
+            # A symbol of the input string that is not in the alphabet: go on
+            # with the first input symbol that comes after it in the ordering
+            rank = symbol if key is None else key(symbol)
+            for other in sorted_symbols:
+                other_rank = other if key is None else key(other)
+                if (other_rank < rank) if reverse else (other_rank > rank):
+                    return other
+            return None
+
         # Special case for None
         state_stack: Deque[Optional[DFAStateT]] = deque(
             [self.initial_state]
@@ -1540,7 +1554,7 @@ class DFA(fa.FA):
                 if candidate is None:
                     state = state_stack.pop()
                     candidate = char_stack.pop()
-                candidate = symbol_succ[candidate]
+                candidate = next_symbol(candidate)
             should_yield = True
         # Predecessor yields here for empty string
         state = state_stack[-1]
